@@ -328,6 +328,9 @@ func (h *histLabels) list() []string {
 }
 
 type runOpts struct {
+	// profileMix: every history draws one of the generator's profiles (plain, more privileged
+	// operations — OPER, GLINE, KILL, MODE, INVITE —, more membership changes)
+	profileMix bool
 	// captchaSometimes: half of the histories start on a network with captcha URL and secret
 	// configured (+x channels, captcha tokens as JOIN keys and in PASS)
 	captchaSometimes bool
@@ -352,6 +355,9 @@ func runGenerated(rt *rapid.T, ro runOpts, orc oracle) (*hcase, *vh.Failure, []s
 	i := newServer(initial, time.Unix(0, 1))
 	gopt := ro.gen
 	gopt.Commands = commandNames()
+	if ro.profileMix {
+		gopt.Bias = rapid.SampledFrom([]string{"", "privilege", "membership"}).Draw(rt, "generator_profile")
+	}
 	gopt.InitialConfig = &def
 	// ids as a real network has them (robust.MessageOffset + raft index) in two of three cases
 	gopt.StartID = rapid.SampledFrom([]uint64{0, 4648398125000000000, 4648398125000000000 + 1<<33}).Draw(rt, "id_base")
